@@ -3,7 +3,7 @@ import copy
 from .. import common, gen, mergecorr, oracles, t2, ser
 from . import base
 
-THEOREMS = ['C15_idempotent_last_plain', 'C15_empty_neutral_plain', 'C15_update_idempotent']
+THEOREMS = ['C15_idempotent_last_plain', 'C15_empty_neutral_plain', 'C15_update_idempotent', 'C15_unsafe_marks_neutral_plain']
 
 
 def tagk(n):
